@@ -676,7 +676,7 @@ func printTerm(sb *strings.Builder, t *Term, names map[*Term]string) {
 			break
 		}
 		sb.WriteString(") ")
-		if len(q.Args) > 2 {
+		if len(q.Args) > 2 && patternsOK(q.Args[2:]) {
 			sb.WriteString("(! ")
 			printTerm(sb, q.Args[0], names)
 			sb.WriteString(" :pattern (")
@@ -931,4 +931,30 @@ func sortedKeys[V any](m map[string]V) []string {
 	}
 	sort.Strings(ks)
 	return ks
+}
+
+
+// patternsOK: SMT solvers accept only function applications in patterns (no ite, connectives, arithmetic relations).
+func patternsOK(ps []*Term) bool {
+	var ok func(t *Term) bool
+	ok = func(t *Term) bool {
+		if t.kind == tApp && t.Op != "select" && t.Op != "store" {
+			return false
+		}
+		if t.kind == tQuant {
+			return false
+		}
+		for _, a := range t.Args {
+			if !ok(a) {
+				return false
+			}
+		}
+		return true
+	}
+	for _, p := range ps {
+		if !ok(p) {
+			return false
+		}
+	}
+	return true
 }
